@@ -106,6 +106,9 @@ def train(pwfile, outdir, keep_dir=False, **kw):
 
 def write_training_file(path, passwords, encoding='utf-8', newline='\n'):
     with open(path, 'wb') as f:
+        if encoding.lower().replace('_', '-') == 'utf-8-sig':      # one byte order mark at the start of the file, not one per line
+            f.write(b'\xef\xbb\xbf')
+            encoding = 'utf-8'
         for p in passwords:
             f.write(p.encode(encoding) + newline.encode('ascii'))
     return path
